@@ -462,6 +462,11 @@ def classify(case, cfg, strategy, clauses, obs):
         plain = classify(dict(case, pre=None), cfg, strategy, clauses, obs)
         if plain in ROOT_SIGNATURES:              # a root cause that does not need the pre-stage
             return plain
+        if fam == "sort" and has_na and group in ("order", "whole", "raised:IndexError"):
+            # the missing-key root causes of sort_values (a partition holding only missing keys puts NaN among the divisions)
+            # seen through a pre-stage: a hash stage on the key co-locates ALL missing keys, any stage re-deals the rows, so
+            # which partition holds only missing keys is no longer visible in the case's own layout
+            return "sort_values:pre-partitioned:missing-keys:order"
         if fam == "dedup" and group == "metadata" and cfg["split_out"] is not True and cfg["split_out"] > 1:
             return "drop_duplicates:pre-partitioned:split_out:count"
         if fam == "dedup" and group == "metadata" and pre_of(case)["how"] == "shuffle" and not cfg.get("blockwise", True):
